@@ -64,7 +64,7 @@ def run(F, R, tier):
     R.rule("U", "every function of the MSSM a_mu code is dimensionally consistent and has the declared result "
                 "dimension (dimensionless; log_scale: GeV)", 55)
     check_units(F, R, "U", FILES, RESULT_DIM, LOOPFN)
-    _pole_slots(F, R)
+    R.guard(_pole_slots, F, R)
     # uncertainty floor (shared with C18-U2): the constant floor is what the 2-loop uncertainty decays to
     from .domains import lower_bound
     R.rule("F", "two-loop uncertainty = constant floor 2.3e-10 + terms proportional to |2L(a)| contributions", 1)
